@@ -21,6 +21,13 @@ A *case* is the literal input of one call of the real code
                 own dataset (same conditions), `dslist_noise` 'none' | 'matrix' | 'per_dataset'
   remove_mean, prior_lambda, prior_weight, extra (a second obs descriptor and a vector-valued
                 dataset descriptor)
+  desc_container 'list' | 'array': obs descriptors handed to Dataset as python lists or numpy arrays
+  layout        'c' | 'int' (integer dtype, only when all values are integers) | 'fortran' |
+                'strided' (non-contiguous view of a wider array): dtype / memory layout of the measurements
+  noise_dtype   'float' | 'int': dtype of the precision array(s)
+  ds_container  (dataset lists) 'list' | 'tuple' | 'generator'
+  dslist_noise  'none' | 'matrix' | 'per_dataset' | 'per_dataset_array3d' (one 3-D array, one matrix per
+                dataset) | 'per_dataset_per_fold' (list over datasets of lists over folds)
   view          None or a re-presentation of the same data under which the property says the
                 result is invariant: {'rows': permutation, 'fold_map': [[old, new] …] | None,
                 'chan': permutation | None}; the real code is run on the case *and* on the
@@ -53,6 +60,10 @@ THEOREMS = [_P + n for n in (
     'cv_fold_relabel_estimators',
     'cv_channel_perm',
     'cv_channel_perm_foldprec',
+    'crossnobis_foldprec_certified',
+    'cv_channel_perm_foldprec_certified',
+    'certInv_is_inverse',
+    'poissoncv_lastfold_ne_spec',
     'cv_labels_from_descriptor',
     'defaultCv_balanced',
     'defaultCv_dataset_balanced',
@@ -60,6 +71,16 @@ THEOREMS = [_P + n for n in (
     'leaf_entry_formula',
     'leaf_fold_average',
     'leaf_prior_regularisation',
+    'leaf_counts_ok',
+    'leaf_channel_norm',
+    'leaf_poisson_fold_mean',
+    'leaf_pair_cov',
+    'leaf_kernel_summand',
+    'leaf_centre',
+    'leaf_fold_loops',
+    'leaf_pair_loop',
+    'pairsOf_eq_loopPairs',
+    'leaf_fold_selectors',
 )]
 RULE = ('cases come from one PRNG: fold-balanced designs with 2-5 conditions x 2-5 folds x 1-3 '
         'repetitions x 1-5 channels (plus a many-fold stream with 11-12 folds and a malformed '
@@ -77,7 +98,10 @@ BRANCHES = ['crossnobis:noise_none', 'crossnobis:noise_matrix', 'crossnobis:nois
             'reps>1', 'folds>=11', 'view:rows', 'view:fold_map', 'view:chan', 'nonsym_precision',
             'reject:no_descriptor', 'reject:noise_type', 'reject:noise_shape',
             'noise_container:dict', 'noise_container:array3d',
-            'input:dataset_list', 'dslist:noise_none', 'dslist:noise_matrix', 'dslist:noise_per_dataset']
+            'input:dataset_list', 'dslist:noise_none', 'dslist:noise_matrix', 'dslist:noise_per_dataset',
+            'dslist:noise_per_dataset_array3d', 'dslist:noise_per_dataset_per_fold',
+            'dslist:tuple', 'dslist:generator', 'desc:array', 'layout:int', 'layout:fortran',
+            'layout:strided', 'noise_dtype:int', 'labels:bool']
 ASSUMPTIONS = [
     'float64 evaluation (numpy on the implementation side, Lean Float / exact Rat on the model side) '
     'agrees within rtol 1e-9 / atol 1e-9 on the small dyadic inputs used',
@@ -93,6 +117,8 @@ STR_POOL = ['a', 'b', 'B', 'Z', 'c1', 'c10', 'c9', '10', '9', '2', 'face', 'hous
 # ------------------------------------------------------------------ generation
 
 def _labels(rng, kind, n):
+    if kind == 'bool':
+        return rng.sample([False, True], n)
     if kind == 'int':
         return rng.sample(range(-12, 130), n)
     if kind == 'str':
@@ -144,6 +170,8 @@ def _mk_view(rng, case):
 def make_case(rng, n_cond=None, n_fold=None, n_rep=None, n_chan=None, method=None,
               default_cv=None, ckind=None, noise_kind=None, unbalanced=False):
     method = method or rng.choice(['crossnobis', 'crossnobis', 'poisson_cv'])
+    if ckind is None and n_cond in (None, 2) and rng.random() < 0.05:
+        ckind, n_cond = 'bool', 2
     C = n_cond or rng.randint(2, 5)
     M = n_fold or rng.randint(2, 5)
     R = n_rep or rng.choice([1, 1, 2, 3])
@@ -175,7 +203,12 @@ def make_case(rng, n_cond=None, n_fold=None, n_rep=None, n_chan=None, method=Non
             'cond': cond, 'fold': None if default_cv else fold, 'x': x, 'P': P,
             'noise_kind': 'none', 'noise': None, 'remove_mean': False,
             'prior_lambda': 1.0, 'prior_weight': 0.1, 'extra': rng.random() < 0.3, 'view': None,
-            'descriptor': True, 'noise_container': 'list'}
+            'descriptor': True, 'noise_container': 'list',
+            'desc_container': rng.choice(['list', 'list', 'array']),
+            'layout': rng.choice(['c', 'c', 'int', 'fortran', 'strided']),
+            'noise_dtype': rng.choice(['float', 'float', 'int'])}
+    if case['layout'] == 'int' and any(not isinstance(v, int) for row in x for v in row):
+        case['layout'] = 'c'
     if method == 'crossnobis':
         nk = noise_kind or rng.choice(['none', 'matrix', 'matrix', 'list', 'list'])
         case['noise_kind'] = nk
@@ -234,18 +267,24 @@ def make_dslist(rng, noise=None):
     top = dict(parts[0])
     top['parts'] = parts
     top['dslist_noise'] = 'none'
+    top['ds_container'] = rng.choice(['list', 'list', 'tuple', 'generator'])
     for k in ('remove_mean', 'prior_lambda', 'prior_weight'):
         for p in parts:
             p[k] = top[k]
     if method == 'crossnobis':
-        top['dslist_noise'] = noise or rng.choice(['none', 'matrix', 'per_dataset'])
+        top['dslist_noise'] = noise or rng.choice(['none', 'matrix', 'per_dataset', 'per_dataset_array3d',
+                                                   'per_dataset_per_fold'])
         if top['dslist_noise'] == 'matrix':
             N = _spd(rng, P)
             for p in parts:
                 p['noise_kind'], p['noise'] = 'matrix', N
-        elif top['dslist_noise'] == 'per_dataset':
+        elif top['dslist_noise'] in ('per_dataset', 'per_dataset_array3d'):
             for p in parts:
                 p['noise_kind'], p['noise'] = 'matrix', _spd(rng, P)
+        elif top['dslist_noise'] == 'per_dataset_per_fold':
+            for p in parts:
+                m = len(set(p['fold'])) if p['fold'] is not None else p['cond'].count(p['cond'][0])
+                p['noise_kind'], p['noise'] = 'list', [_spd(rng, P) for _ in range(m)]
     return top
 
 
@@ -259,8 +298,21 @@ def generate(rng, tier):
         yield make_case(rng, method='crossnobis', noise_kind=nk, default_cv=True)
     for kind in ('no_descriptor', 'noise_type', 'noise_shape'):
         yield make_malformed(rng, kind)
-    for nz in ('none', 'matrix', 'per_dataset'):
+    for nz in ('none', 'matrix', 'per_dataset', 'per_dataset_array3d', 'per_dataset_per_fold'):
         yield make_dslist(rng, nz)
+    for cont in ('tuple', 'generator'):
+        c = make_dslist(rng)
+        c['ds_container'] = cont
+        yield c
+    for key, val in (('desc_container', 'array'), ('layout', 'int'), ('layout', 'fortran'),
+                     ('layout', 'strided'), ('noise_dtype', 'int')):
+        c = make_case(rng, method='crossnobis', noise_kind='matrix', default_cv=False)
+        c[key] = val
+        if key == 'layout' and val == 'int':
+            c['x'] = [[int(round(float(unrat(v)))) for v in row] for row in c['x']]
+        yield c
+    yield make_case(rng, n_cond=2, ckind='bool', default_cv=False)
+    yield make_case(rng, n_cond=2, ckind='bool', default_cv=True, n_fold=3)
     for cont in ('dict', 'array3d'):
         c = make_case(rng, method='crossnobis', noise_kind='list', default_cv=False)
         c['noise_container'] = cont
@@ -323,6 +375,8 @@ def _apply_view(case):
 
 
 def _plain(v):
+    if isinstance(v, (np.bool_, bool)):
+        return bool(v)
     if isinstance(v, (np.integer,)):
         return int(v)
     if isinstance(v, (np.floating,)):
@@ -332,14 +386,53 @@ def _plain(v):
     return v
 
 
+def _measurements(case):
+    """the measurement array in the dtype / memory layout the case asks for (same values)"""
+    X = np.array([[float(unrat(v)) for v in row] for row in case['x']], dtype=float)
+    layout = case.get('layout', 'c')
+    if layout == 'int' and np.all(X == np.round(X)):
+        return X.astype(np.int64)
+    if layout == 'fortran':
+        return np.asfortranarray(X)
+    if layout == 'strided':
+        wide = np.full((X.shape[0], 2 * X.shape[1] + 1), 77.0)
+        wide[:, 1::2] = X
+        return wide[:, 1::2]                   # non-contiguous view
+    return X
+
+
+def _descriptor(case, values):
+    return np.array(values) if case.get('desc_container', 'list') == 'array' else list(values)
+
+
+def _noise_array(case, m):
+    return np.array(m, dtype=int if case.get('noise_dtype', 'float') == 'int' else float)
+
+
+def _noise_arg(case):
+    noise = None
+    if case['noise_kind'] in ('matrix', 'badshape'):
+        noise = _noise_array(case, case['noise'])
+    elif case['noise_kind'] == 'scalar':
+        noise = float(case['noise'])
+    elif case['noise_kind'] == 'list':
+        noise = [_noise_array(case, m) for m in case['noise']]
+        cont = case.get('noise_container', 'list')
+        if cont == 'dict':
+            noise = dict(enumerate(noise))
+        elif cont == 'array3d' and len({m.shape for m in noise}) == 1:
+            noise = np.array(noise)
+    return noise
+
+
 def _call(case):
     """run rsatoolbox on exactly this input; canonical result"""
     from rsatoolbox.data import Dataset
     from rsatoolbox.rdm import calc as rcalc
-    X = np.array([[float(unrat(v)) for v in row] for row in case['x']], dtype=float)
-    obs = {'cond': list(case['cond'])}
+    X = _measurements(case)
+    obs = {'cond': _descriptor(case, case['cond'])}
     if case['fold'] is not None:
-        obs['fold'] = list(case['fold'])
+        obs['fold'] = _descriptor(case, case['fold'])
     if case['extra']:
         obs['family'] = ['g' + str(_plain(c)) for c in case['cond']]
     dsc = {'subj': 's1'}
@@ -347,18 +440,7 @@ def _call(case):
         dsc['params'] = [1.5, 2.5, 3.5]        # vector-valued dataset descriptor
     ds = Dataset(X, descriptors=dsc, obs_descriptors=obs)
     cv = 'fold' if case['fold'] is not None else None
-    noise = None
-    if case['noise_kind'] in ('matrix', 'badshape'):
-        noise = np.array(case['noise'], dtype=float)
-    elif case['noise_kind'] == 'scalar':
-        noise = float(case['noise'])
-    elif case['noise_kind'] == 'list':
-        noise = [np.array(m, dtype=float) for m in case['noise']]
-        cont = case.get('noise_container', 'list')
-        if cont == 'dict':
-            noise = dict(enumerate(noise))
-        elif cont == 'array3d' and len({m.shape for m in noise}) == 1:
-            noise = np.array(noise)
+    noise = _noise_arg(case)
     if case.get('parts'):
         return _call_list(case)
     dname = 'cond' if case.get('descriptor', True) else None
@@ -378,7 +460,7 @@ def _call(case):
             else:
                 r = rcalc.calc_rdm_poisson_cv(ds, dname, prior_lambda=case['prior_lambda'],
                                               prior_weight=case['prior_weight'], cv_descriptor=cv)
-    except (ValueError, TypeError, AssertionError, IndexError, KeyError, np.linalg.LinAlgError) as exc:
+    except Exception as exc:      # noqa: BLE001  any library exception is a result, never a harness crash
         name = type(exc).__name__
         return {'exc': name if name in ('ValueError', 'TypeError', 'AssertionError') else 'other'}
     if r.dissimilarities.shape[0] != 1 or 'cond' not in r.pattern_descriptors:
@@ -397,25 +479,35 @@ def _call_list(case):
     from rsatoolbox.rdm import calc as rcalc
     dss = []
     for p in case['parts']:
-        X = np.array([[float(unrat(v)) for v in row] for row in p['x']], dtype=float)
-        obs = {'cond': list(p['cond'])}
+        X = _measurements(p)
+        obs = {'cond': _descriptor(p, p['cond'])}
         if p['fold'] is not None:
-            obs['fold'] = list(p['fold'])
+            obs['fold'] = _descriptor(p, p['fold'])
         dss.append(Dataset(X, descriptors={'subj': 's1'}, obs_descriptors=obs))
     cv = 'fold' if case['fold'] is not None else None
     noise = None
     if case['dslist_noise'] == 'matrix':
-        noise = np.array(case['parts'][0]['noise'], dtype=float)
+        noise = _noise_arg(case['parts'][0])
     elif case['dslist_noise'] == 'per_dataset':
-        noise = [np.array(p['noise'], dtype=float) for p in case['parts']]
+        noise = [_noise_arg(p) for p in case['parts']]
+    elif case['dslist_noise'] == 'per_dataset_array3d':
+        noise = np.array([_noise_arg(p) for p in case['parts']])     # (n_datasets, P, P)
+    elif case['dslist_noise'] == 'per_dataset_per_fold':
+        noise = [_noise_arg(p) for p in case['parts']]               # list of lists of matrices
+    cont = case.get('ds_container', 'list')
+    if cont == 'tuple':
+        dss = tuple(dss)
+    elif cont == 'generator':
+        dss = (d for d in list(dss))
+    n_ds = len(case['parts'])
     try:
         r = rcalc.calc_rdm(dss, method=case['method'], descriptor='cond', noise=noise, cv_descriptor=cv,
                            prior_lambda=case['prior_lambda'], prior_weight=case['prior_weight'],
                            remove_mean=case['remove_mean'])
-    except (ValueError, TypeError, AssertionError, IndexError, KeyError, np.linalg.LinAlgError) as exc:
+    except Exception as exc:      # noqa: BLE001  any library exception is a result, never a harness crash
         name = type(exc).__name__
         return {'exc': name if name in ('ValueError', 'TypeError', 'AssertionError') else 'other'}
-    if r.dissimilarities.shape[0] != len(dss) or 'cond' not in r.pattern_descriptors:
+    if r.dissimilarities.shape[0] != n_ds or 'cond' not in r.pattern_descriptors:
         return {'exc': 'malformed', 'shape': list(r.dissimilarities.shape)}
     labels = [_plain(v) for v in r.pattern_descriptors['cond']]
     pairs = list(itertools.combinations(labels, 2))
@@ -441,17 +533,22 @@ def run_impl(case):
 def _enc_label(kind, v):
     if kind == 'rat':
         return rat(F(v))
+    if kind == 'bool':
+        return int(v)          # np.unique orders False < True like 0 < 1
     return v
 
 
 def _dec_label(kind, v):
     if kind == 'rat':
         return float(unrat(v))
+    if kind == 'bool':
+        return bool(v)
     return v
 
 
 def _request(case, what):
-    r = {'ckind': case['ckind'], 'fkind': case['fkind'], 'P': case['P'], 'what': what,
+    r = {'ckind': 'int' if case['ckind'] == 'bool' else case['ckind'], 'fkind': case['fkind'],
+         'P': case['P'], 'what': what,
          'descriptor': bool(case.get('descriptor', True)),
          'cond': [_enc_label(case['ckind'], c) for c in case['cond']],
          'fold': None if case['fold'] is None else [_enc_label(case['fkind'], f) for f in case['fold']]}
@@ -596,6 +693,15 @@ def features(case, impl):
     if case.get('parts'):
         br.append('input:dataset_list')
         br.append('dslist:noise_' + case['dslist_noise'])
+        if case.get('ds_container', 'list') != 'list':
+            br.append('dslist:' + case['ds_container'])
+    else:
+        if case.get('desc_container', 'list') == 'array':
+            br.append('desc:array')
+        if case.get('layout', 'c') != 'c':
+            br.append('layout:' + case['layout'])
+        if case.get('noise_dtype', 'float') == 'int' and case['noise_kind'] in ('matrix', 'list'):
+            br.append('noise_dtype:int')
     v = case.get('view') or {}
     if v.get('rows') and v['rows'] != sorted(v['rows']):
         br.append('view:rows')
